@@ -99,6 +99,7 @@ type State struct {
 	sched    []int // schedule (thread ids) for diagnostics
 	cfg      *HarnessCfg
 	ticks    int
+	confirmModels bool // inside an assertion query: models of the integer back end must be confirmed
 	fnSeen   map[string]bool
 	stubSeen map[string]bool
 	knownOn  map[string]bool
@@ -292,7 +293,7 @@ func (s *State) solveUncached(vars []*Term, extra ...*Term) (SatResult, map[stri
 			s.ex.noteUnknownMsg("model returned by " + fb.Name + " does not satisfy the query (rejected)")
 			r, m = Unknown, nil
 		}
-		if r == Sat && vars != nil && fb.Name == "cvc5-int" {
+		if r == Sat && vars != nil && fb.Name == "cvc5-int" && s.confirmModels {
 			// the integer encoding has returned models that do not satisfy the bit-vector query (and
 			// that the evaluator cannot judge when they are partial): a model from this back end is
 			// only used if the primary solver accepts the query with the model's values pinned
